@@ -360,6 +360,9 @@ class Executor:
       self.G[name] = coerce(self.world.materialize(self, w, self.state_spec[name]),
                             self.state_spec[name])
       return
+    if isinstance(w, VRecord) and w.kind.rname == 'SelTree':
+      from pyvc import tree as _tree
+      w = _tree.root_of(w)       # a local bound to the tree is a cursor at its root
     lk = self.contract.local_kinds.get(name)
     if lk is None:
       lk = self.contract.local_kinds.get(fr.qual.split('::')[-1] + ':' + name)
@@ -1115,8 +1118,13 @@ class Executor:
         attr = name[5:]
         if selfw is not None and attr in selfw.fields:
           old = selfw.fields[attr]
-          selfw.fields[attr] = working_copy(kind_of(old).fresh(
-              self.path.fresh_name(f'lp{n}_{attr}')))
+          new = working_copy(kind_of(old).fresh(self.path.fresh_name(f'lp{n}_{attr}')))
+          if isinstance(old, VRecord) and old.kind.mutable:
+            # keep the record's identity (cursors into it stay valid): havoc in place
+            for f in old.fields:
+              old.fields[f] = new.fields[f]
+          else:
+            selfw.fields[attr] = new
         continue
       if name in fr.globals_declared or (name not in fr.env and name in self.G):
         if name in self.G:
@@ -1404,6 +1412,8 @@ class Executor:
     return self.get_attr(obj, node.attr, node)
 
   def get_attr(self, obj, attr, node):
+    if self.world._treeish(obj):
+      return VPy('nodemethod', (obj, attr))
     if isinstance(obj, VRecord):
       if attr in obj.fields:
         return obj.fields[attr]
@@ -1686,7 +1696,13 @@ class Executor:
       if fn.what == 'opaque':
         return self.opaque_call(fn, args, kwargs, node)
       if fn.what == 'external':
-        return self.call_contract(C.REGISTRY[fn.payload], args, kwargs, node, None)
+        c = C.REGISTRY[fn.payload]
+        if c.dispatch is not None:
+          c = c.dispatch(args) or c
+        return self.call_contract(c, args, kwargs, node, None)
+      if fn.what == 'nodemethod':
+        from pyvc import tree
+        return tree.node_method(self, fn.payload[0], fn.payload[1], args, kwargs, node)
       if fn.what == 'valmethod':
         obj, qual = fn.payload
         return self.call_contract(C.REGISTRY[qual], [obj] + list(args), kwargs, node, None)
